@@ -198,6 +198,7 @@ type Parser struct {
 	prefix    string
 	currFunc  string
 	usedFuncs map[string][]string // Stores which function (key) calls which functions (values).
+	importing []string            // Absolute paths of the files on the current import chain.
 }
 
 func New() Parser {
@@ -714,6 +715,12 @@ func (p *Parser) evaluateImports(ctx context) ([]Statement, error) {
 				return nil, fmt.Errorf(`an alias must be provided for the local import "%s" in "%s"`, path, p.path)
 			}
 			importParser := New()
+			importParser.importing = append(slices.Clone(p.importing), p.path)
+
+			// A file that is already being parsed further up the import chain would be parsed forever.
+			if slices.Contains(importParser.importing, absPath) {
+				return nil, fmt.Errorf(`import cycle: "%s" imports "%s" which is already being imported`, p.path, absPath)
+			}
 			importedProg, err := importParser.parse(absPath, true)
 
 			if err != nil {
